@@ -48,6 +48,8 @@ CONSTANTS Parts,      \* subset of {"shape", "expr", "doc"}: the parts of the ca
           SlotSet,    \* expr part: the slots explored
           SpineSlots, \* expr part: slots explored with the full MaxSpine (others get spines of length <= 1)
           DeepLeaves, \* expr part: leaves used below spines of length >= 2
+          ReloadCleans, \* FALSE is the code: _load_docstring restores the serialised value after Docstring() cleaned it again;
+                      \* TRUE: the decoder before commit 6630405 (model-only regression domain, Serde_regress_cleandoc.cfg)
           MemberLoaders, \* kinds whose _load_xxx loads `members`: {"module", "class", "function"} is the code; without
                       \* "function" the model is the decoder before "fix: reload the members of functions from JSON"
                       \* (model-only regression domain, spec/cfg/Serde_regress_members.cfg)
@@ -282,10 +284,18 @@ StrEV == EV(S, "na")
 \* =================================================================================================
 \* 3. Objects (models.py) : descriptors
 \* =================================================================================================
-NoDoc == [present |-> FALSE, lineno |-> "none", endlineno |-> "none", parser |-> "none", section |-> "text"]
-Doc(lines, parser, section) ==
+\* Docstring.value = inspect.cleandoc(text.rstrip()).  cleandoc strips the first line completely but dedents the others
+\* by their common margin, so it is NOT idempotent: after a blank first line followed by a first content line indented
+\* deeper than the rest, the once-cleaned value still starts with blanks and a second cleandoc changes it.  `val` says
+\* whether the value is a fixpoint of cleandoc ("fix") or would change when cleaned again ("again").
+DocTexts == {"single", "flush", "deepfirst", "trailing", "tabs"}     \* shapes of the source text
+CleanedOnce(text) == IF text = "deepfirst" THEN "again" ELSE "fix"    \* cross-checked with CPython's inspect.cleandoc
+CleanAgain(val) == "fix"
+NoDoc == [present |-> FALSE, lineno |-> "none", endlineno |-> "none", parser |-> "none", section |-> "text", val |-> "fix"]
+DocT(lines, parser, section, text) ==
   [present |-> TRUE, lineno |-> IF lines THEN "int" ELSE "none", endlineno |-> IF lines THEN "int" ELSE "none",
-   parser |-> parser, section |-> section]
+   parser |-> parser, section |-> section, val |-> CleanedOnce(text)]
+Doc(lines, parser, section) == DocT(lines, parser, section, "single")
 
 Obj(kind, name) ==
   [kind |-> kind, name |-> name, lineno |-> "none", endlineno |-> "none", doc |-> NoDoc, labels |-> "empty",
@@ -311,7 +321,7 @@ EVJSON(ev) == ExprJSON(ev.e)
 
 \* Docstring.as_dict
 DocJSON(doc, full) ==
-  JObj(("value" :> JStr) @@ ("lineno" :> LN(doc.lineno)) @@ ("endlineno" :> LN(doc.endlineno))
+  JObj(("value" :> JConst(doc.val)) @@ ("lineno" :> LN(doc.lineno)) @@ ("endlineno" :> LN(doc.endlineno))
        @@ Opt(full, "parsed", JArr([i \in 1..Len(Parsed(doc)) |->
                 JObj(("kind" :> JConst(Parsed(doc)[i])) @@ ("value" :> JShallow(SectionValueType(Parsed(doc)[i])))
                      @@ Opt(Parsed(doc)[i] = "admonition", "title", JStr))])))      \* `if self.title:` - admonitions carry one
@@ -393,8 +403,10 @@ Get(j, k) == IF k \in Keys(j) THEN j.f[k] ELSE JNull          \* obj_dict.get(k)
 LoadDoc(j) ==
   IF "docstring" \notin Keys(j) THEN NoDoc
   ELSE LET dj == j.f["docstring"]
+       \* Docstring(**dict) cleans the value again; _load_docstring then puts the serialised value back
        IN [present |-> TRUE, lineno |-> Ty(Get(dj, "lineno")), endlineno |-> Ty(Get(dj, "endlineno")),
-           parser |-> "none", section |-> "text"]
+           parser |-> "none", section |-> "text",
+           val |-> IF ReloadCleans THEN CleanAgain(dj.f["value"].v) ELSE dj.f["value"].v]
 DocLoadable(j) == "docstring" \in Keys(j) => Keys(j.f["docstring"]) \subseteq {"value", "lineno", "endlineno"}
 
 \* a slot value: None, str, or a dict with "cls" that the hook already turned into an expression
@@ -449,9 +461,11 @@ HookObject(j, sub) ==
   LET kind == j.f["kind"].v
       miss == FirstMissing(j, Indexed(kind))
   IN IF miss # "" THEN Fail("KeyError", miss, kind)
-     ELSE IF ~DocLoadable(j) THEN Fail("TypeError", "docstring", kind)
+     \* (only the FULL form has `parsed`: its section dicts {"kind": "text", ...} reach the hook first, "kind" is a str
+     \*  that is no Kind -> _load_parameter -> KeyError('name'); Docstring(**dict) would reject `parsed` anyway)
+     ELSE IF ~DocLoadable(j) THEN Fail("KeyError", "name", "section")
      ELSE IF kind = "function" /\ \E i \in 1..Len(j.f["parameters"].items) : ~DocLoadable(j.f["parameters"].items[i])
-          THEN Fail("TypeError", "docstring", "parameter")
+          THEN Fail("KeyError", "name", "section")
      ELSE
        LET base == [Obj(kind, "") EXCEPT
                       !.doc = IF kind = "alias" THEN NoDoc ELSE LoadDoc(j),
@@ -497,7 +511,8 @@ Decode(j) == LET r == DecodeFrom(j) IN IF r.ok THEN Okay(<<[r.chain[1] EXCEPT !.
 \* =================================================================================================
 \* 6. The case space
 \* =================================================================================================
-VARIABLES guard,                                                  \* "none" | "typecheck" (defined under `if TYPE_CHECKING:`) | "stub" (exists in the merged .pyi only)
+VARIABLES dtext,                                                  \* shape of the docstring text (DocTexts) or "na"
+          guard,                                                  \* "none" | "typecheck" (defined under `if TYPE_CHECKING:`) | "stub" (exists in the merged .pyi only)
           dfield,                                                 \* field of a dataclass host: "na" | "plain" | "kw_true" | "kw_expr"
           part,                                                   \* "shape" | "expr" | "doc"
           origin, kind, host, mname, doc, cwdrel,                 \* object level
@@ -506,7 +521,7 @@ VARIABLES guard,                                                  \* "none" | "t
           slot, spine, leaf,                                      \* expr part
           section,                                                \* doc part
           pc, chain, enc, dec, reenc, obs                         \* the run
-casevars == <<guard, dfield, part, origin, kind, host, mname, doc, cwdrel, bases, deco, pann, pdef, pdoc, ret, val, ann, where,
+casevars == <<dtext, guard, dfield, part, origin, kind, host, mname, doc, cwdrel, bases, deco, pann, pdef, pdoc, ret, val, ann, where,
               alno, resolved, slot, spine, leaf, section>>
 vars == <<casevars, pc, chain, enc, dec, reenc, obs>>
 
@@ -577,8 +592,14 @@ CaseChoice ==
                               /\ ret \in {NA, "none"} /\ val \in {NA, "str"} /\ ann \in {NA, "none"}
                            THEN {"none", "typecheck", "stub"} ELSE {"none", "typecheck"})
                      ELSE {"none"}
+       \* the docstring text shapes, on otherwise plain objects of every kind and origin
+       \* (the docstring of an inspected attribute is that of the type of its value, not a text of the module)
+       /\ dtext \in IF doc = "plain" /\ origin # "builtin" /\ ~(Inspected(origin) /\ kind = "attribute") /\ mname \in {"x", "pkg"} /\ host \in {"none", "class"} /\ guard = "none"
+                       /\ bases \in {NA, "none"} /\ deco \in {NA, "none"} /\ pann \in {NA, "nopar"} /\ ret \in {NA, "none"}
+                       /\ val \in {NA, "str"} /\ ann \in {NA, "none"} /\ where = "container"
+                     THEN DocTexts ELSE {NA}
      ELSE IF part = "expr" THEN
-       /\ origin = "static"
+       /\ origin = "static" /\ dtext = NA
        /\ slot \in SlotSet /\ kind = SlotKind(slot)
        /\ host = "none" /\ mname = "x" /\ doc = "absent" /\ dfield = NA /\ guard = "none"
        /\ spine \in UNION {[1..n -> IF n > FullDepth THEN CoreSteps ELSE AllSteps] : n \in 0..(IF slot \in SpineSlots THEN MaxSpine ELSE 1)}
@@ -590,7 +611,7 @@ CaseChoice ==
        /\ origin \in DocOrigins
        /\ kind \in IF origin = "static" THEN {"root", "class", "function", "attribute"} ELSE {"root", "class", "function"}
        /\ section \in SectionKinds
-       /\ host = "none" /\ mname = (IF kind = "root" THEN "pkg" ELSE "x") /\ doc = "google" /\ dfield = NA /\ guard = "none"
+       /\ host = "none" /\ mname = (IF kind = "root" THEN "pkg" ELSE "x") /\ doc = "google" /\ dfield = NA /\ guard = "none" /\ dtext = NA
        /\ bases = (IF kind = "class" THEN "none" ELSE NA) /\ deco = (IF kind \in {"class", "function"} THEN "none" ELSE NA)
        /\ pann = (IF kind = "function" THEN "nopar" ELSE NA) /\ pdef = NA /\ pdoc = FALSE
        /\ ret = (IF kind = "function" THEN "none" ELSE NA)
@@ -600,7 +621,8 @@ CaseChoice ==
 \* ---- the descriptor chain of a case: what the agent `origin` produces -----------------------------------
 HasLines(o, k) == o = "static" \/ (o = "inspect_src" /\ k \in {"class", "function"}) \/ (o = "namespace" /\ k # "module")
 DocOf(o) == IF doc = "absent" THEN NoDoc
-            ELSE Doc(o \in {"static", "namespace"}, IF doc = "google" THEN "google" ELSE "none", IF doc = "google" THEN section ELSE "text")
+            ELSE DocT(o \in {"static", "namespace"}, IF doc = "google" THEN "google" ELSE "none", IF doc = "google" THEN section ELSE "text",
+                      IF dtext = NA THEN "single" ELSE dtext)
 LineOf(o, k) == IF HasLines(o, k) THEN "int" ELSE "none"
 SlotEV == EV(MkExpr(spine, leaf), IF IsScalar(MkExpr(spine, leaf)) THEN "na" ELSE "container")
 
@@ -698,7 +720,7 @@ FocusOf(ch) == ch[Len(ch)]
 \* the serialised state of an object (what "equivalent tree" compares); resolution state and the docstring
 \* parser are loader state, not serialised, and not compared here
 Serialised(o) == [kind |-> o.kind, name |-> o.name, lineno |-> o.lineno, endlineno |-> o.endlineno,
-                  doc |-> [present |-> o.doc.present, lineno |-> o.doc.lineno, endlineno |-> o.doc.endlineno],
+                  doc |-> [present |-> o.doc.present, lineno |-> o.doc.lineno, endlineno |-> o.doc.endlineno, val |-> o.doc.val],
                   labels |-> o.labels, filepath |-> o.filepath, alineno |-> o.alineno, aendlineno |-> o.aendlineno,
                   nbases |-> Len(o.bases), decs |-> [i \in 1..Len(o.decorators) |-> <<o.decorators[i].lineno, o.decorators[i].endlineno>>],
                   pdocs |-> [i \in 1..Len(o.params) |-> o.params[i].doc.present],
@@ -735,6 +757,8 @@ CleanDecode == TRUE
 \* assigned in __init__ were built in the scope of the function and come back attached to the class.
 \* a loader that does not load `members` drops what the agent stored below such an object (_load_attribute; attributes
 \* never have members)
+\* a value that cleandoc would change again survives the reload only because the decoder does not keep the re-cleaned one
+CleanDocText == ~ReloadCleans \/ \A i \in 1..Len(MkChain) : MkChain[i].doc.val = "fix"
 CleanMembers == \A i \in 1..(Len(MkChain) - 1) : MkChain[i].kind \in MemberLoaders
 CleanNames == LET o == FocusOf(MkChain)
               IN CleanMembers /\ \A i \in 1..Len(SlotsOf(o)) :
@@ -744,7 +768,9 @@ CleanNames == LET o == FocusOf(MkChain)
 CleanRender == CleanMembers          \* (a dropped object has no expressions to render)
 CleanFull == CleanMembers /\ \A i \in 1..Len(MkChain) : Parsed(MkChain[i].doc) = <<"text">>
 
-Clean == CleanMembers /\ CleanEncode /\ CleanDecode /\ CleanNames /\ CleanRender /\ CleanFull
+\* the full form can be loaded back exactly when it contains no docstring (no `parsed` sections)
+CleanFullReload == \A i \in 1..Len(MkChain) : ~MkChain[i].doc.present /\ \A k \in 1..Len(MkChain[i].params) : ~MkChain[i].params[k].doc.present
+Clean == CleanDocText /\ CleanMembers /\ CleanEncode /\ CleanDecode /\ CleanNames /\ CleanRender /\ CleanFull
 
 InDomain == CASE Domain = "clean" -> Clean [] Domain = "defect" -> ~Clean [] OTHER -> TRUE
 Init ==
@@ -760,11 +786,13 @@ Observe ==
   /\ obs' = [enc_min_ok |-> ~IsRaise(enc.min), enc_full_ok |-> ~IsRaise(enc.full), dec_ok |-> dec.ok,
              same_min |-> dec.ok /\ reenc.min = enc.min, same_full |-> dec.ok /\ reenc.full = enc.full,
              tree_eq |-> dec.ok /\ Len(dec.chain) = Len(chain) /\ \A i \in 1..Len(chain) : Serialised(dec.chain[i]) = Serialised(chain[i]),
+             \* loading the FULL form back (documented as unsupported: the full form is meant for other tools)
+             decfull_ok |-> IF IsRaise(enc.full) THEN TRUE ELSE Decode(enc.full).ok,
              names_before |-> NamesOf(FocusOf(chain)),
              names_after |-> IF dec.ok /\ Len(dec.chain) = Len(chain) THEN NamesOf(FocusOf(dec.chain)) ELSE <<[slot |-> "focus lost", pars |-> <<>>, scope |-> "na"]>>,
              render_eq |-> dec.ok /\ Len(dec.chain) = Len(chain) /\ RendersOf(FocusOf(dec.chain)) = RendersOf(FocusOf(chain)),
              clean |-> [encode |-> CleanEncode, decode |-> CleanDecode, names |-> CleanNames, render |-> CleanRender, full |-> CleanFull,
-                       members |-> CleanMembers]]
+                       members |-> CleanMembers, doctext |-> CleanDocText]]
   /\ pc' = "done" /\ UNCHANGED <<casevars, chain, enc, dec, reenc>>
 Next == Build \/ AsJson \/ FromJson \/ AsJsonAgain \/ Observe
 Spec == Init /\ [][Next]_vars
@@ -773,13 +801,14 @@ Spec == Init /\ [][Next]_vars
 Characterisation ==
   Done => /\ (obs.enc_full_ok <=> obs.clean.encode) /\ obs.enc_min_ok
           /\ (obs.dec_ok <=> obs.clean.decode)
-          /\ (obs.dec_ok => ((obs.same_min /\ obs.tree_eq) <=> obs.clean.members))
+          /\ (obs.enc_full_ok => (obs.decfull_ok <=> CleanFullReload))
+          /\ (obs.dec_ok => ((obs.same_min /\ obs.tree_eq) <=> (obs.clean.members /\ obs.clean.doctext)))
           /\ ((obs.dec_ok /\ obs.enc_full_ok) => (obs.same_full <=> obs.clean.full))
           /\ (obs.dec_ok => ((obs.names_after = obs.names_before) <=> obs.clean.names))
           /\ (obs.dec_ok => (obs.render_eq <=> obs.clean.render))
 
 \* Domain = "all": the literal clauses on the clean part of the space, in the same run
-IsClean == Done /\ obs.clean.members /\ obs.clean.encode /\ obs.clean.decode /\ obs.clean.names /\ obs.clean.render /\ obs.clean.full
+IsClean == Done /\ obs.clean.doctext /\ obs.clean.members /\ obs.clean.encode /\ obs.clean.decode /\ obs.clean.names /\ obs.clean.render /\ obs.clean.full
 Clean_EncodeTotal == IsClean => EncodeTotal
 Clean_DecodeDefined == IsClean => DecodeDefined
 Clean_RoundTripMinimal == IsClean => RoundTripMinimal
@@ -792,7 +821,7 @@ Clean_ExpressionsSame == IsClean => ExpressionsSame
 \* 9. Case emission
 \* =================================================================================================
 CaseRec ==
-  [guard |-> guard, dfield |-> dfield, part |-> part, origin |-> origin, kind |-> kind, host |-> host, mname |-> mname, doc |-> doc, cwdrel |-> cwdrel,
+  [dtext |-> dtext, guard |-> guard, dfield |-> dfield, part |-> part, origin |-> origin, kind |-> kind, host |-> host, mname |-> mname, doc |-> doc, cwdrel |-> cwdrel,
    bases |-> bases, deco |-> deco, pann |-> pann, pdef |-> pdef, pdoc |-> pdoc, ret |-> ret, val |-> val, ann |-> ann,
    where |-> where, alno |-> alno, resolved |-> resolved, slot |-> slot, spine |-> spine, leaf |-> leaf, section |-> section,
    clean |-> obs.clean,
@@ -800,7 +829,7 @@ CaseRec ==
    dec |-> [ok |-> dec.ok, exc |-> dec.exc, key |-> dec.key, kind |-> dec.kind],
    same |-> [min |-> obs.same_min, full |-> obs.same_full],
    names |-> [before |-> obs.names_before, after |-> obs.names_after],
-   render |-> obs.render_eq,
+   render |-> obs.render_eq, decfull |-> obs.decfull_ok,
    tree |-> IF part = "expr" THEN MkExpr(spine, leaf) ELSE NoneN]
 EmitCase == (Emit /\ Done) => PrintT(<<"CASE", ToJson(CaseRec)>>)
 =============================================================================
